@@ -113,15 +113,23 @@ def run_case(rnd, k, variants, n_mut=None, **over):
     return {"kind": "run", "rows": gen_rows(rnd, n_mut, rnd.randint(1, 2)), "opts": o, "variants": variants}
 
 
-def cluster_case(rnd, k, variants):
+def cluster_case(rnd, k, variants, tied=False):
     """input with a cluster file and --assign-loss-prob: load_data draws from the main generator (permutation test per
-    cluster of >= 4 mutations) before the chains are seeded from it"""
+    cluster of >= 4 mutations) before the chains are seeded from it.  `tied`: string cluster ids where two clusters tie
+    for the truncal role (each has the top prevalence in one sample, equal means) and differ in chromosome spread, so any
+    dependence on the iteration order of a set/dict of cluster ids changes the outlier priors and hence the trace."""
     sizes = [rnd.randint(4, 6), rnd.randint(4, 5), rnd.randint(4, 5)]
     prev = [[0.95, 0.9], [rnd.choice([0.3, 0.5]), rnd.choice([0.1, 0.4])], [rnd.choice([0.2, 0.45]), rnd.choice([0.05, 0.3])]]
     n_samp = rnd.randint(1, 2)
+    if tied:
+        sizes = [6, 6, 5]
+        prev = [[1.0, 0.5], [0.5, 1.0], [0.2, 0.1]]
+        n_samp = 2
     rows, crows, m = [], [], 0
     for c, size in enumerate(sizes):
         chroms = [str(rnd.randint(1, 3 if c == 2 else 12)) for _ in range(size)]
+        if tied:
+            chroms = [[str(j + 1) for j in range(size)], ["7"] * size, [str(8 + j) for j in range(size)]][c]
         for j in range(size):
             for s in range(n_samp):
                 depth = rnd.randint(40, 150)
@@ -146,6 +154,7 @@ def cases(tier, rnd):
         out.append(run_case(rnd, 1, [variant("0"), variant("random", cpus=1), variant(hs(), max_time=0.001)]))
         out.append(run_case(rnd, 2, [variant("0", finish=[0, 1]), variant(hs(), start=[1, 0], finish=[1, 0])]))
         out.append(run_case(rnd, 3, [variant("0"), variant(hs(), cpus=2, finish=perm_not_identity(rnd, 3), sleep={"0": [0.5, 0]})]))
+        out.append(cluster_case(rnd, 1, [variant("0"), variant("1"), variant("2"), variant("3"), variant("4")], tied=True))
         return out + tail
     out.append({"kind": "zero_chains"})
     for i in range(21):
@@ -174,6 +183,8 @@ def cases(tier, rnd):
         out.append(run_case(rnd, k, vs, n_mut=rnd.randint(3, 8), **over))
     out.append(cluster_case(rnd, 1, [variant("0"), variant("random", cpus=1), variant(hs())]))
     out.append(cluster_case(rnd, 2, [variant("0", finish=[0, 1]), variant("random", start=[1, 0], finish=[1, 0])]))
+    out.append(cluster_case(rnd, 1, [variant(str(h)) for h in range(8)], tied=True))
+    out.append(cluster_case(rnd, 2, [variant(str(h), finish=[0, 1]) for h in range(5)], tied=True))
     return out + tail
 
 
